@@ -160,13 +160,16 @@ Definition arr_contains (v : Z) (l : list Z) (idx : nat) : bool := z_in v (first
 (** pinned tree: common::contains( mDestVar, v) looks at all N slots *)
 Definition arr_contains_pinned (v : Z) (l : list Z) (idx : nat) : bool := z_in v l.
 
+(** mDestVar[ mIndex] = value *)
+Definition arr_set (l : list Z) (i : nat) (v : Z) : list Z := firstn i l ++ v :: skipn (S i) l.
+
 Definition step_arr (contains : Z -> list Z -> nat -> bool) (n : nat) (o : copts) (t : str)
     (l : list Z) (idx : nat) : res cont :=
   if Nat.eqb idx n then Err ERuntime else
   do _ <- run_checks (o_checks o) t;
   do v <- lex_int (apply_fmts (o_fmts o) t);
   if o_uniq o && contains v l idx then (if o_dup_err o then Err ERuntime else Ok (CArr l idx))
-  else Ok (CArr (upd l idx v) (S idx)).
+  else Ok (CArr (arr_set l idx v) (S idx)).
 
 (** common::tuple_at_index throws out_of_range beyond the last element; only
     position formats exist for tuples (none in the configuration language) *)
